@@ -58,17 +58,19 @@ def text_wall(t):
 
 def observe(kind, dt, key, src):
     """write dt (zoned) in a property of the given kind, read it back -> row for the trace"""
+    # every other row hands additional parameters to add(): the zone tag of the value is not one of them and must survive
+    extra = {"X-VERIF": "1", "RANGE": "THISANDFUTURE"} if (wall_min(dt)[1] + len(key)) % 2 else None
     if kind == "single":
         c = Event()
-        c.add("dtstart", dt)
-        name = "DTSTART"
+        c.add("dtstart" if extra is None else "recurrence-id", dt, parameters=extra)
+        name = "DTSTART" if extra is None else "RECURRENCE-ID"
     elif kind == "list":
         c = Event()
-        c.add("rdate", [dt, dt + timedelta(days=400)])
+        c.add("rdate", [dt, dt + timedelta(days=400)], parameters=extra)
         name = "RDATE"
     else:
         c = FreeBusy()
-        c.add("freebusy", (dt, dt + timedelta(days=2) if key != "UTC" else timedelta(hours=1)))
+        c.add("freebusy", (dt, dt + timedelta(days=2) if key != "UTC" else timedelta(hours=1)), parameters=extra)
         name = "FREEBUSY"
     b = c.to_ical()
     ps, dts = line_facts(b, name)
